@@ -280,7 +280,9 @@ def install(reg, src):
         strict = c.arg("strict", T.const(sk) if sk is not None else None, default=False)
         s0 = PState(ip, P)
         if not c.verifying:
-            raise Unsupported("solve_lp contract is applied only through Problem.solve (see problem_c)")
+            if ip.path.ghost.get("dispatch"):
+                return reg.dispatch_apply(c, "solve_lp")
+            raise Unsupported("solve_lp contract is applied only through Problem.solve (see dispatch_c)")
         ip.path.ghost["pins"] = {"lp": c.case.get("lp"), "res": c.case.get("res")}
         # ---- entry state: cache invariant of C13 for the two caches solve_lp reads
         vnone = s0.cache_none["_variables"]
@@ -594,7 +596,17 @@ def install_bounded(reg):
                    "it is what turns a failed extraction obligation into a concrete failing problem"})
 
 
+def install_bounded_x0(reg):
+    reg.bounded_checks.setdefault("C09", []).append({
+        "name": "x0", "script": "bounded_x0.py", "timeout": 300,
+        "bound": "every pair of bound classes lb in {None, -inf, -3, 0, 2} x ub in {None, +inf, -1, 0, 2, 5} for lists of one and two "
+                 "variables (exhaustive over these 930 lists)",
+        "why": "_compute_initial_point is proved for bounds that are real numbers or None; the floats +-inf (which SciPy reads as "
+               "'no bound') are outside the real-arithmetic model (A1)"})
+
+
 def install_scipy(reg, src):
+    install_bounded_x0(reg)
     from .compiler_c import NV, IDXS, DOMOF, make_index_map, index_map_of_varlist, names_of_varlist, compiled_fn, point_for
     from .seqtheory import named_exists, named_forall, seqs, _once, skolem, add_index
     FN = sym.fn("F_name", sym.Ref, sym.Name)
@@ -937,6 +949,8 @@ def install_scipy_main(reg, src):
         ip = c.ip
         P = c.arg("problem", T.obj("Problem", exact=True))
         ip.path.assume(z3.Select(st(ip, "Problem._constraints!len", sym.I), P.ref) >= 0)
+        if not c.verifying and ip.path.ghost.get("dispatch"):
+            return reg.dispatch_apply(c, "solve_scipy")
         if not c.verifying:
             # recursive retry SLSQP -> trust-constr: the measure is "method is SLSQP"
             meth = c.arg("method")
